@@ -326,6 +326,10 @@ func InitZooMaps() error {
 func mapsDigest(tm map[string]reflect.Type, nm map[string]string) string {
 	var ks []string
 	for k, v := range tm {
+		if v == nil {
+			ks = append(ks, "T "+k+" -> <nil>")
+			continue
+		}
 		ks = append(ks, "T "+k+" -> "+v.String())
 	}
 	for k, v := range nm {
